@@ -457,3 +457,30 @@ T('c17-twin-fstring', 'C17', [(U, """      create_statement = (
               create_keyword=create_keyword,
               name=ground.table_name,
               dependency_sql=FormatSql(dependency_sql)))""", """      create_statement = f'{create_keyword} {ground.table_name} AS {FormatSql(dependency_sql)}'""")])
+
+# ---------------------------------------------------------------- C06
+M('c06-cpp-op-missing', 'C06', [(CPP, 'const std::vector<std::string> base = {"||", "&&", "->", "==",', 'const std::vector<std::string> base = {"||", "&&", "==",')], 'C06-R1')
+M('c06-cpp-op-order', 'C06', [(CPP, '"==", "<=", ">=", "<", ">", "!=", "=", "~",', '"==", "<", "<=", ">=", ">", "!=", "=", "~",')], 'C06-R1')
+M('c06-py-new-operator', 'C06', [(PA, "      '||', '&&', '->', '==', '<=', '>=', '<', '>', '!=', '=', '~',", "      '||', '&&', '->', '==', '<>', '<=', '>=', '<', '>', '!=', '=', '~',")], 'C06-R1')
+M('c06-cpp-field-renamed', 'C06', [(CPP, 'out["otherwise"] = ParseExpression(last_else);', 'out["else"] = ParseExpression(last_else);')], 'C06-R3')
+M('c06-py-literal-order', 'C06', [(PA, """  v = ParseList(s)
+  if v:
+    return {'the_list': v}
+  v = ParseBoolean(s)
+  if v:
+    return {'the_bool': v}""", """  v = ParseBoolean(s)
+  if v:
+    return {'the_bool': v}
+  v = ParseList(s)
+  if v:
+    return {'the_list': v}""")], 'C06-R2')
+M('c06-py-variable-chars', 'C06', [(PA, "VARIABLE_CHARS_SET = set(string.ascii_lowercase) | set('_') | set(string.digits)", "VARIABLE_CHARS_SET = set(string.ascii_letters) | set('_') | set(string.digits)")], 'C06-R4')
+M('c06-py-new-keyword', 'C06', [(PA, "  element_list_str = Split(s, ' in ')\n  if len(element_list_str) == 2:", "  element_list_str = Split(s, ' in ')\n  if len(element_list_str) != 2:\n    element_list_str = Split(s, ' within ')\n  if len(element_list_str) == 2:")], 'C06-R3')
+M('c06-cpp-no-throw', 'C06', [(CPP, """static bool IsVariableChars(const SpanString& s) {""", """static bool IsVariableCharsUnused(const SpanString& s) { return true; }
+static bool IsVariableChars(const SpanString& s) {"""), (PA, "    raise ParsingException(\n        'I expected string to be split by >>%s<< in two.' % separator, s)\n", "    return (parts[0], parts[-1])\n")], 'C06-R6')
+M('c06-cpp-call-name-chars', 'C06', [(CPP, 'for (char c : std::string("@_.${}+-`")) good_chars.insert(c);', 'for (char c : std::string("@_.${}+-`#")) good_chars.insert(c);')], 'C06-R4')
+M('c06-py-rewrite-order', 'C06', [(PA, "  rules = DisjunctiveNormalForm.Rewrite(rules)\n  # Multibody aggregation uses concise aggregation structure.\n  rules = MultiBodyAggregation.Rewrite(rules)", "  rules = MultiBodyAggregation.Rewrite(rules)\n  # Multibody aggregation uses concise aggregation structure.\n  rules = DisjunctiveNormalForm.Rewrite(rules)")], 'C06-R2')
+T('c06-twin-py-message', 'C06', [(PA, "raise ParsingException('Could not parse proposition.', s)", "raise ParsingException('Proposition could not be parsed.', s)")])
+T('c06-twin-cpp-comment', 'C06', [(CPP, "        return std::nullopt;  // negation is special.", "        return std::nullopt;  // negation is handled by ParseNegation.")])
+T('c06-twin-py-list-layout', 'C06', [(PA, "      ' in ', ' is not ', ' is ', '++?', '++', '+', '-', '*', '/', '%',\n      '^', '!'])", "      ' in ', ' is not ', ' is ',\n      '++?', '++', '+', '-', '*', '/', '%', '^', '!'])")])
+M('c13-cpp-sticky-switch', 'C13', [(CPP, '    TOO_MUCH = "fun";\n  } else {\n    TOO_MUCH = "too much";\n  }', '    TOO_MUCH = "fun";\n  }')], 'C13-R2')
